@@ -34,17 +34,38 @@ def lower_is(c, ch):
 
 
 def ref_dec_value(cs):
+    """exact value of the digit string as a 128-bit term: sum of digit * 10^k (constant powers; no chained multiplications)"""
     acc = z3.BitVecVal(0, 128)
-    for c in cs:
-        acc = acc * 10 + z3.ZeroExt(96, c - ord('0'))
+    n = len(cs)
+    for i, c in enumerate(cs):
+        acc = acc + z3.ZeroExt(96, c - ord('0')) * z3.BitVecVal(10 ** (n - 1 - i), 128)
     return acc
 
 
 def ref_hex_value(cs):
+    """exact value of the hex digit string: the digits' nibbles concatenated"""
     acc = z3.BitVecVal(0, 128)
-    for c in cs:
-        acc = acc * 16 + z3.ZeroExt(96, hexval(c))
+    n = len(cs)
+    for i, c in enumerate(cs):
+        acc = acc | (z3.ZeroExt(96, hexval(c)) << (4 * (n - 1 - i)))
     return acc
+
+
+def ref_fits(ds, kind):
+    """the numeral is < 2^63: shorter than the numeral of 2^63 - 1, or (same length, zero-padded) not above it digit by digit"""
+    if kind == 'dec':
+        bound = [int(ch) for ch in str(2 ** 63 - 1)]
+        dv = [d - ord('0') for d in ds]
+    else:
+        bound = [int(ch, 16) for ch in '%x' % (2 ** 63 - 1)]
+        dv = [hexval(d) for d in ds]
+    if len(dv) < len(bound):
+        return z3.BoolVal(True)
+    bound = [0] * (len(dv) - len(bound)) + bound
+    le = z3.BoolVal(True)
+    for d, b in reversed(list(zip(dv, bound))):
+        le = z3.If(z3.ULT(d, b), True, z3.If(z3.UGT(d, b), False, le))
+    return le
 
 
 def ref_is_float_word(cs):
@@ -240,7 +261,7 @@ def unit(u, res):
         cons += [(is_digit(c) if kind == 'dec' else is_hexdigit(c)) for c in ds]
         chars = (['0', 'x'] if kind == 'hex' else []) + ds
         val = ref_dec_value(ds) if kind == 'dec' else ref_hex_value(ds)
-        fits = z3.ULT(val, z3.BitVecVal(2 ** 63, 128))
+        fits = ref_fits(ds, kind)
         for o in run_tokenize(C, res, chars, cons):
             tok = single_token(meta, o)
             if tok is None:
